@@ -440,10 +440,12 @@ func (g *ngen) stmt(ind int, res []nty, d int) {
 		t := nty(g.r.Intn(int(nInt)))
 		if v := g.pick(t); v != "" {
 			g.w(ind, "if %s %s nil {", v, [...]string{"==", "!="}[g.r.Intn(2)])
+			save := g.vars[:len(g.vars):len(g.vars)] // variables declared inside the block go out of scope with it
 			if g.ch(30) && d > 0 {
 				g.stmt(ind+1, res, d-1)
 			}
 			g.ret(ind+1, res, 1)
+			g.vars = save
 			g.w(ind, "}")
 			return
 		}
